@@ -283,3 +283,228 @@ Section Walk.
     unfold enc_slider_duration, slider_curve_dist. rewrite Ed. cbn [obind]. apply Hev.
   Qed.
 End Walk.
+
+(* ================================================================== *)
+(* 2. the real parameters: panic                                       *)
+(* ================================================================== *)
+
+From RM Require Import Proofs.SliderEventsFacts Proofs.SliderEventsIEEE.
+
+Definition ev_params (start dur vel td total : F64) (n : Z) : SliderEvents.params F64 :=
+  SliderEvents.mkP start dur vel td total n.
+
+(* SliderEventsIter::new(..).collect() panics only inside new(), and there
+   exactly when total_dist < 0 (C20_new_panics_iff, C20_no_panic_after_new) *)
+Lemma events_real_panic start dur vel td total n w :
+  0 <= n <= i32_max ->
+  DrvEnc.events_real start dur vel td total n = Panic w -> D.lt total D.zero = true.
+Proof.
+  intros Hn. unfold DrvEnc.events_real.
+  destruct (SliderEvents.run SliderEvents.ops64 false DrvEnc.ev_fuel DrvEnc.ev_fuel
+              (SliderEvents.mkP start dur vel td total n) []) as [l|w'|] eqn:E; cbn [obind]; try discriminate.
+  intros _.
+  pose proof (run_no_panic SliderEvents.ops64 false DrvEnc.ev_fuel DrvEnc.ev_fuel
+                (SliderEvents.mkP start dur vel td total n) [] w' Hn E) as Hnew.
+  pose proof (iter_new_panics_iff (SliderEvents.mkP start dur vel td total n) []) as C.
+  cbn [SliderEvents.p_total] in C.
+  destruct (D.lt total D.zero); [reflexivity|]. destruct C as (x & C). congruence.
+Qed.
+
+Lemma events_real_avoids_panic start dur vel td total n :
+  0 <= n <= i32_max -> nn64 total = true ->
+  avoids BPanic (DrvEnc.events_real start dur vel td total n).
+Proof.
+  intros Hn Ht. apply avoids_panic_iff. intros w E.
+  pose proof (events_real_panic _ _ _ _ _ _ _ Hn E) as H. rewrite nn64_lt_zero, Ht in H. discriminate.
+Qed.
+
+(* the decidable class outside of which the encoder cannot panic: the map is
+   an osu! or catch map and some slider's curve distance is negative *)
+Definition neg_dist_slider (lm : Curve.Libm) (h : HitObject) : bool :=
+  match h_kind h with
+  | KSlider s =>
+      match dist_of_curve lm (sl_mode s) (sl_control_points s) (sl_expected_dist s) with
+      | Done d => D.lt d D.zero
+      | _ => false
+      end
+  | _ => false
+  end.
+
+Definition neg_dist_class (lm : Curve.Libm) (m : BeatmapV) : bool :=
+  ((g_mode (hov_general (bmv_ho m)) =? 0) || (g_mode (hov_general (bmv_ho m)) =? 2)) &&
+  existsb (neg_dist_slider lm) (hov_hit_objects (bmv_ho m)).
+
+Lemma repeat_cap_i32 : repeat_cap + 1 <= i32_max.
+Proof. vm_compute. discriminate. Qed.
+
+Section Real.
+  Variable lm : Curve.Libm.
+  Notation dreal := (DrvEnc.dist_real lm).
+
+  Lemma fin_real h : obj_fin (dist_of_curve lm) h -> obj_fin dreal h.
+  Proof.
+    unfold obj_fin, slider_dist_done. destruct (h_kind h) as [ci|s|sp|hd]; try (intros; exact I).
+    intros (Hi & d & Hd). split; [exact Hi|]. exists d. rewrite dist_real_eq. exact Hd.
+  Qed.
+
+  Lemma decoded_shape lines bv :
+    decode_beatmap (dist_of_curve lm) lines = Done bv -> map_shape dreal bv.
+  Proof.
+    intros H. destruct (decoded_objects _ _ _ H) as (Hc & Hf). split; [exact Hc|].
+    eapply Forall_impl; [|exact Hf]. exact fin_real.
+  Qed.
+
+  (* one slider: both event calls avoid a panic when its distance is not negative *)
+  Lemma slider_events_avoid_panic mode version tick_rate slider_mult c h :
+    cp_sorted c -> obj_fin dreal h -> neg_dist_slider lm h = false ->
+    events_avoid dreal DrvEnc.events_real BPanic mode version tick_rate slider_mult c h.
+  Proof.
+    unfold obj_fin, events_avoid, neg_dist_slider. intros Hc Hf Hn.
+    destruct (h_kind h) as [ci|s|sp|hd]; try exact I.
+    destruct Hf as (((Hr0 & Hr1) & _) & d & Hd).
+    rewrite <- dist_real_eq, Hd in Hn.
+    assert (Hnn : nn64 d = true) by (rewrite nn64_lt_zero in Hn; destruct (nn64 d); [reflexivity|discriminate]).
+    assert (Hrange : 0 <= sl_repeat_count s + 1 <= i32_max) by (pose proof repeat_cap_i32; lia).
+    split; intros _.
+    - apply (slider_events_args dreal DrvEnc.events_real BPanic _ _ _ _ _ d Hc Hr0 Hd).
+      intros dur vel td. apply events_real_avoids_panic; assumption.
+    - apply (juicestream_events_args dreal DrvEnc.events_real BPanic _ _ _ _ _ _ d Hc Hr0 Hd).
+      intros dur vel td. apply events_real_avoids_panic; assumption.
+  Qed.
+
+  Lemma events_avoid_other_modes b mode version tick_rate slider_mult c h :
+    mode <> 0 -> mode <> 2 ->
+    events_avoid dreal DrvEnc.events_real b mode version tick_rate slider_mult c h.
+  Proof. intros H0 H2. unfold events_avoid. destruct (h_kind h); try exact I. split; intros E; contradiction. Qed.
+
+  Theorem map_avoids_panic m : map_shape dreal m -> neg_dist_class lm m = false ->
+    map_events_avoid dreal DrvEnc.events_real BPanic m.
+  Proof.
+    intros (Hc & Hf) Hn. unfold map_events_avoid, neg_dist_class in *.
+    set (mode := g_mode (hov_general (bmv_ho m))) in *.
+    destruct ((mode =? 0) || (mode =? 2)) eqn:Em; cbn [andb] in Hn.
+    - apply Forall_forall. intros h Hin. rewrite Forall_forall in Hf.
+      apply slider_events_avoid_panic; [exact Hc|exact (Hf h Hin)|].
+      destruct (neg_dist_slider lm h) eqn:E; [|reflexivity].
+      assert (existsb (neg_dist_slider lm) (hov_hit_objects (bmv_ho m)) = true)
+        by (apply existsb_exists; exists h; split; assumption).
+      congruence.
+    - apply Forall_forall. intros h _. apply events_avoid_other_modes; lia.
+  Qed.
+
+  (* THE ENCODER NEVER PANICS ON A DECODED MAP outside [neg_dist_class] *)
+  Theorem encode_no_panic_outside lines bv w :
+    decode_beatmap (dist_of_curve lm) lines = Done bv -> neg_dist_class lm bv = false ->
+    encode_tokens dreal DrvEnc.events_real bv <> Panic w.
+  Proof.
+    intros H Hn. pose proof (decoded_shape lines bv H) as Hm.
+    apply avoids_panic_iff. apply encode_avoids; [exact Hm|].
+    exact (map_avoids_panic bv Hm Hn).
+  Qed.
+
+  (* ... and a panic, if there is one, is the D18 panic of some slider *)
+  Corollary encode_panic_is_D18 lines bv w :
+    decode_beatmap (dist_of_curve lm) lines = Done bv ->
+    encode_tokens dreal DrvEnc.events_real bv = Panic w ->
+    (g_mode (hov_general (bmv_ho bv)) = 0 \/ g_mode (hov_general (bmv_ho bv)) = 2) /\
+    exists h s d, In h (hov_hit_objects (bmv_ho bv)) /\ h_kind h = KSlider s /\
+      dist_of_curve lm (sl_mode s) (sl_control_points s) (sl_expected_dist s) = Done d /\
+      D.lt d D.zero = true.
+  Proof.
+    intros H E. destruct (neg_dist_class lm bv) eqn:C.
+    - unfold neg_dist_class in C. apply andb_true_iff in C. destruct C as (Cm & Ce).
+      split; [lia|]. apply existsb_exists in Ce. destruct Ce as (h & Hin & Hh).
+      unfold neg_dist_slider in Hh. destruct (h_kind h) as [ci|s|sp|hd] eqn:Ek; try discriminate.
+      destruct (dist_of_curve lm (sl_mode s) (sl_control_points s) (sl_expected_dist s)) as [d| |] eqn:Ed;
+        try discriminate.
+      exists h, s, d. repeat split; assumption.
+    - exfalso. exact (encode_no_panic_outside lines bv w H C E).
+  Qed.
+
+  (* ---------- where the class is provably empty ---------- *)
+
+  (* the osu!-mode Catmull surplus of the slider's path is not negative *)
+  Definition slider_surplus_nn (s : Slider) : Prop :=
+    surplus_nn lm Curve.bezier_fuel (sl_mode s) (map CurveDist.conv_pcp (sl_control_points s)).
+
+  Lemma slider_dist_nn s d : slider_img s -> slider_surplus_nn s ->
+    dist_of_curve lm (sl_mode s) (sl_control_points s) (sl_expected_dist s) = Done d -> nn64 d = true.
+  Proof.
+    intros (_ & He) Hs. unfold dist_of_curve, curve_of.
+    destruct (Curve.curve_L1 lm Curve.bezier_fuel (sl_mode s) (map CurveDist.conv_pcp (sl_control_points s))
+                (sl_expected_dist s)) as [c| |] eqn:Ec; cbn [obind]; try discriminate.
+    intros [= <-]. exact (curve_dist_nn lm _ _ _ _ c He Hs Ec).
+  Qed.
+
+  (* syntactic: not (osu! mode and a Catmull control point) *)
+  Definition has_catmull_pcp (cps : list PCP) : bool :=
+    existsb (fun p => match cp_type p with Some t => pt_kind t =? sk_catmull | None => false end) cps.
+  Definition osu_catmull (s : Slider) : bool := (sl_mode s =? 0) && has_catmull_pcp (sl_control_points s).
+
+  Lemma has_catmull_conv cps : has_catmull (map CurveDist.conv_pcp cps) = has_catmull_pcp cps.
+  Proof.
+    unfold has_catmull, has_catmull_pcp. induction cps as [|p r IH]; [reflexivity|].
+    cbn [map existsb]. rewrite IH. f_equal.
+    unfold CurveDist.conv_pcp. cbn [Curve.pc_type]. destruct (cp_type p) as [t|]; [|reflexivity].
+    unfold CurveDist.conv_kind, sk_catmull.
+    destruct (pt_kind t =? 0); [reflexivity|].
+    destruct (pt_kind t =? 1); [reflexivity|]. destruct (pt_kind t =? 2); reflexivity.
+  Qed.
+
+  Lemma not_osu_catmull_surplus s : osu_catmull s = false -> slider_surplus_nn s.
+  Proof.
+    intros H. apply surplus_nn_outside. rewrite has_catmull_conv. exact H.
+  Qed.
+
+  Definition obj_surplus_nn (h : HitObject) : Prop :=
+    match h_kind h with KSlider s => slider_surplus_nn s | _ => True end.
+
+  Lemma surplus_class_empty m : map_shape dreal m ->
+    Forall obj_surplus_nn (hov_hit_objects (bmv_ho m)) -> neg_dist_class lm m = false.
+  Proof.
+    intros (_ & Hf) Hs. unfold neg_dist_class.
+    replace (existsb (neg_dist_slider lm) (hov_hit_objects (bmv_ho m))) with false; [apply andb_false_r|].
+    symmetry. apply not_true_is_false. intros E. apply existsb_exists in E. destruct E as (h & Hin & Hh).
+    rewrite Forall_forall in Hf, Hs. specialize (Hf h Hin). specialize (Hs h Hin).
+    unfold neg_dist_slider, obj_fin, obj_surplus_nn in *.
+    destruct (h_kind h) as [ci|s|sp|hd]; try discriminate.
+    destruct Hf as (Hi & _).
+    destruct (dist_of_curve lm (sl_mode s) (sl_control_points s) (sl_expected_dist s)) as [d| |] eqn:Ed;
+      try discriminate.
+    rewrite nn64_lt_zero, (slider_dist_nn s d Hi Hs Ed) in Hh. discriminate.
+  Qed.
+
+  Theorem encode_no_panic_surplus lines bv w :
+    decode_beatmap (dist_of_curve lm) lines = Done bv ->
+    Forall obj_surplus_nn (hov_hit_objects (bmv_ho bv)) ->
+    encode_tokens dreal DrvEnc.events_real bv <> Panic w.
+  Proof.
+    intros H Hs. apply (encode_no_panic_outside lines bv w H).
+    exact (surplus_class_empty bv (decoded_shape lines bv H) Hs).
+  Qed.
+
+  Definition obj_osu_catmull (h : HitObject) : bool :=
+    match h_kind h with KSlider s => osu_catmull s | _ => false end.
+
+  (* no panic at all: taiko / mania maps (no slider events), and maps without
+     an osu!-mode Catmull slider *)
+  Theorem encode_no_panic_no_catmull lines bv w :
+    decode_beatmap (dist_of_curve lm) lines = Done bv ->
+    (g_mode (hov_general (bmv_ho bv)) <> 0 /\ g_mode (hov_general (bmv_ho bv)) <> 2) \/
+    existsb obj_osu_catmull (hov_hit_objects (bmv_ho bv)) = false ->
+    encode_tokens dreal DrvEnc.events_real bv <> Panic w.
+  Proof.
+    intros H [(H0 & H2)|Hc].
+    - apply (encode_no_panic_outside lines bv w H). unfold neg_dist_class.
+      replace (g_mode (hov_general (bmv_ho bv)) =? 0) with false by lia.
+      replace (g_mode (hov_general (bmv_ho bv)) =? 2) with false by lia. reflexivity.
+    - apply (encode_no_panic_surplus lines bv w H).
+      apply Forall_forall. intros h Hin. unfold obj_surplus_nn.
+      destruct (h_kind h) as [ci|s|sp|hd] eqn:Ek; try exact I.
+      apply not_osu_catmull_surplus.
+      destruct (osu_catmull s) eqn:E; [|reflexivity].
+      assert (existsb obj_osu_catmull (hov_hit_objects (bmv_ho bv)) = true).
+      { apply existsb_exists. exists h. split; [exact Hin|]. unfold obj_osu_catmull. rewrite Ek. exact E. }
+      congruence.
+  Qed.
+End Real.
